@@ -232,23 +232,16 @@ def _plain_log_call(e: ast.expr) -> bool:
 def is_transfer_wrapper(prog: Program, fi: FuncInfo, cat: str) -> bool:
     """the timeline wrapper: nested in _resolve_timeline, returned as the metric hook, which the
     runners install only as `_RetryState(on_metric=...)`; records before delegating"""
-    if cat != "on_metric" or fi.parent is None or not fi.parent.qual.endswith(":_resolve_timeline"):
+    if cat != "on_metric":
         return False
-    parent = fi.parent
-    # returned as second element of the tuple
-    from ..ctx import engine
+    # it is the function _resolve_timeline returns as the metric hook (a nested function, or a bound method of the
+    # collector it builds)
+    from .common import timeline_hook
 
-    returned = False
-    for p in engine(prog).paths(parent):
-        if p.exit[0] != "return":
-            continue
-        v = p.exit[1]
-        if not (isinstance(v, tuple) and v[0] == "tuple" and len(v[1]) == 2):
-            return False
-        if v[1][1] == ("global", fi.qual):
-            returned = True
-    if not returned:
+    hk, _ref = timeline_hook(prog)
+    if hk is not fi:
         return False
+    parent = prog.func("redress.policy.runner.timeline:_resolve_timeline")
     # record precedes the delegated call
     body_calls = [n for n in ast.walk(fi.node) if isinstance(n, ast.Call)]
     rec = [c for c in body_calls if isinstance(c.func, ast.Attribute) and c.func.attr == "record"]
